@@ -189,8 +189,9 @@ EMPTY = z3.Const('empty', DS)
 
 class Img:
     """stub image dataset: opaque z3 constant + the few attributes the machine callbacks touch"""
-    def __init__(self, tag, side, disp=None, level=0, rows=64, cols=64, source=(0, 0)):
+    def __init__(self, tag, side, disp=None, level=0, rows=64, cols=64, source=(0, 0), rev_bands=False):
         self.tag = tag; self.side = side; self.level = level
+        self.rev_bands = rev_bands         # order of the band_disp coordinate: ("min", "max") or ("max", "min"); both are legal datasets
         self.term = z3.Const(tag, DS)      # radiometry + masks
         self.seg = None                    # segmentation layer attached by a semantic_segmentation step
         self.sizes = {"row": rows, "col": cols}
@@ -223,9 +224,13 @@ class Img:
                 return s.data * k
             __rmul__ = __mul__
 
+        rev = self.rev_bands
+
         class D:
             def sel(s, band_disp):
                 return W(d[0] if band_disp == "min" else d[1])
+            # positional view of the variable (what `.data` of the DataArray gives): bands in coordinate order
+            data = (d[1], d[0]) if rev else (d[0], d[1])
         return D()
 
 
@@ -235,8 +240,10 @@ class CV:
 
 
 class Disp:
-    def __init__(self, side, disp, mask, conf):
+    def __init__(self, side, disp, mask, conf, attrs=None):
         self.side = side; self.disp = disp; self.mask = mask; self.conf = conf
+        # the real datasets carry the attributes the steps document (filter, refinement, validation, ...): code that consults them runs
+        self.attrs = dict(attrs or {})
 
     def terms(self):
         return [self.disp, self.mask, self.conf]
@@ -400,7 +407,8 @@ def make_stubs():
 
         def disparity_checking(self, a, b, img_left=None, img_right=None, cv=None):
             _log("validation", self.cfg, a.side, other=b.side if isinstance(b, Disp) else None)
-            return Disp(a.side, a.disp, uf("xcm", _sid(self.cfg), a.disp, a.mask, b.disp), uf("xcc", _sid(self.cfg), a.conf, a.disp, b.disp))
+            return Disp(a.side, a.disp, uf("xcm", _sid(self.cfg), a.disp, a.mask, b.disp), uf("xcc", _sid(self.cfg), a.conf, a.disp, b.disp),
+                        attrs=dict(a.attrs, validation="cross_checking_accurate"))
 
     class INTERP(validation.AbstractInterpolation):
         def __init__(self, **cfg):
@@ -672,7 +680,7 @@ def run_words(words, histories=True, mirror=True, ms_variants=((2, 2),), suffix_
                     res['evaluations'] += 1
                     res['_variant'] = {'suffix_style': sty, 'filling': fill, 'ms': list(ms)}
                     cfg = make_cfg(word, sty, fill, ms)
-                    L, R = Img("L", "L", (a_, b_)), Img("R", "R", None)
+                    L, R = Img("L", "L", (a_, b_), rev_bands=(len(word) % 2 == 1)), Img("R", "R", None)
                     m = PandoraMachine()
                     exp_acc = doc_accepts(word)
                     try:
